@@ -159,7 +159,7 @@ PROPS = {
                  "recover() turning a panic into a reported case.",
         "props": ["C10", "C14"],
         "streams": [{"test": "TestSrvSeq", "names": ["srvseq"], "timeout": 300}, {"test": "TestWire", "names": ["wire"], "timeout": 300}, {"test": "TestDhcp", "names": ["dhcp"], "timeout": 300},
-                    {"test": "TestCliCatch", "names": ["clicatch"], "timeout": 300}],
+                    {"test": "TestCliCatch", "names": ["clicatch"], "timeout": 300}, {"test": "TestCliAuto", "names": ["cliauto"], "timeout": 300}],
         "rule": "structure-aware mutations of valid frames (length fields, IHL incl. short packets with large IHL, truncation anywhere, option bytes, hlen "
                 "0/1/6/16/17/255, op, ports, protocol, trailing bytes, bit flips) and random bytes; 8% of the messages of every server script are junk "
                 "frames; unknown message types and 0-16-byte hardware addresses as ordinary messages",
@@ -206,12 +206,14 @@ PROPS = {
                  "theorems over all event lists; tied to the code by running the real dclient (with the mclient loop) under a virtual clock against a "
                  "scripted server and comparing the complete effect timeline (callbacks, frames, probes, deadlines, libif operations).",
         "props": ["C15"],
-        "streams": [{"test": "TestCliAuto", "names": ["cliauto"], "timeout": 300}, {"test": "TestCliSan", "names": ["clisan"], "timeout": 300}],
+        "streams": [{"test": "TestCliAuto", "names": ["cliauto"], "timeout": 300}, {"test": "TestMclient", "names": ["mclient"], "timeout": 300},
+                    {"test": "TestCliSan", "names": ["clisan"], "timeout": 300}],
         "rule": "scripts of 6-20 decisions: at each exchange {valid reply, NAK, invalid replies then silence, silence, link-up}, at each ARP probe {no answer, "
                 "own MAC, foreign MAC}, SetIface failing 15%, once bound {wait for T1, link-up after 1-20 s}; leases {61 s .. 2^32-1 s}, server T1/T2 "
                 "consistent / inconsistent / absent, masks present / absent / non-contiguous; plus buildNetconfig/filterNetconfig on random replies; "
                 "non-trivial = more than two events consumed",
-        "trusted": ["fake libif and ifmon hooks; the mclient.Run / monitor glue is re-implemented in the harness (12 lines)",
+        "trusted": ["fake libif and ifmon hooks; in TestCliAuto the mclient.Run / monitor glue is re-implemented (to record callbacks); TestMclient drives the "
+                    "real client.New(...).Run with link events through the ifmon hook and compares frames, probes and libif operations",
                     "virtual clock: wall-clock drift and hackAbsoluteSleep's 17 s polling are not exhibited"],
         "partial": "Partial: real netlink behaviour and wall-clock drift are not exhibited. Observation (modelled as coded): a link-up while an exchange is "
                    "already rebinding makes that exchange fail into 'purge', so the client starts over instead of re-entering rebinding.",
